@@ -150,3 +150,79 @@ def run(F, R):
     built = {a[1][3] for a in find_aggs(mu, r"maybe_undefined::MaybeUndefined$")}
     R.check({"Undefined", "Null", "Value"} <= built, "R06.6", "MaybeUndefined::parse:three-way", mu.where(), "constructs %s" % sorted(built),
             "MaybeUndefined::parse constructs only %s" % sorted(built))
+
+    R.rule("R06.8", "type-directed validation descends: in validation::utils::is_valid_input_value every recursive call made for a wrapped type passes the "
+                    "wrapper's payload (`[T]` → T for each list item and for the single-value coercion, `T!` → T), never the wrapped type it was called with — "
+                    "otherwise items are validated against the list type and null / over-nested items slip through to resolvers")
+    from common import capture_operand
+    iv = F.one(r"async_graphql::validation::utils::is_valid_input_value$", kind="fn")
+    fam = F.with_nested(iv)
+    n8 = 0
+
+    def payload_of(body, op, depth=0):
+        """set of MetaTypeName variants whose payload the operand derives from ('' when it is the unchanged parameter)"""
+        out = set()
+        o, passed = trace(body, op)
+        for k, x in o:
+            if k == "field":
+                for f in x:
+                    if isinstance(f, str) and f.startswith("@"):
+                        out.add(f[1:])
+            ups = [x] if k == "upvar" else [f[2:].lstrip("*") for f in x if isinstance(f, str) and f.startswith(".^")] if k == "field" else []
+            for u in ups:
+                if depth < 3:
+                    parent, cop = capture_operand(F, body, u)
+                    if cop is not None and cop[0] in ("c", "m"):
+                        out |= payload_of(parent, cop, depth + 1)
+        if op[0] in ("c", "m"):
+            for f in op[1][1:]:
+                if isinstance(f, str) and f.startswith("@"):
+                    out.add(f[1:])
+        return out
+
+    regs = enum_arm_regions(iv, r"registry::MetaTypeName$")
+    R.floor("R06.8", "MetaTypeName switches in is_valid_input_value", len(regs), 1)
+    for sbb, named in regs[:1]:
+        for arm in ("NonNull", "List"):
+            region = named.get(arm, set())
+            sites = [(iv, c) for c in iv.calls() if c.bb in region and c.callee == iv.defp]
+            for (cbb, cdef, st) in iv.closures_created():
+                if cbb in region:
+                    cb = F.get(cdef)
+                    for x in (F.with_nested(cb) if cb else []):
+                        sites += [(x, c) for c in x.calls() if c.callee == iv.defp]
+            for i, (x, c) in enumerate(sites):
+                n8 += 1
+                got = payload_of(x, c.args[1])
+                R.check(arm in got, "R06.8", "descends:%s#%d" % (arm, i + 1), c.where(), "type argument is the %s payload" % arm,
+                        "a recursive call in the %s arm passes a type that is not that arm's payload (derived from %s): the value is re-validated against the wrapper type itself"
+                        % (arm, sorted(got) or "the unchanged parameter"))
+    R.floor("R06.8", "recursive calls in wrapper arms", n8, 3)
+
+    R.rule("R06.9", "list literals keep their length: in the List arm of resolve_input_value_inner every iteration of the item loop pushes exactly one resolved "
+                    "value (an item bound to an omitted variable becomes null, it is not dropped)")
+    from common import sccs
+    ri = F.one(r"async_graphql::context::\{impl#\d+\}::resolve_input_value_inner$", kind="fn")
+    regs = enum_arm_regions(ri, r"async_graphql_value::Value$")
+    ok9 = False
+    for sbb, named in regs[:1]:
+        region = named.get("List", set())
+        for comp in sccs(ri):
+            if not (comp & region):
+                continue
+            nexts = [c for c in ri.calls() if c.bb in comp and re.search(r"::next$", c.callee or "")]
+            pushes = [c for c in ri.calls() if c.bb in comp and re.search(r"vec::\{impl#\d+\}::push$", c.callee or "")]
+            if not nexts:
+                continue
+            # a trip round the loop that avoids every push?
+            skip = False
+            for nx in nexts:
+                for s_ in ri.succ(nx.bb):
+                    reach = ri.reachable(s_, avoid=[p.bb for p in pushes])
+                    if nx.bb in reach and nx.bb in comp:
+                        skip = True
+            ok9 = bool(pushes) and not skip
+            R.check(ok9, "R06.9", "resolve_input_value_inner:List:one-push-per-item", ri.where(), "every loop iteration pushes",
+                    "the item loop of the List arm can complete an iteration without pushing: a list item that resolves to nothing (omitted variable) is dropped and "
+                    "the resolver receives a shorter list")
+    R.check(ok9, "R06.9", "resolve_input_value_inner:List:loop-found", ri.where(), "item loop analysed", "the List arm's item loop was not found")
